@@ -348,6 +348,13 @@ def flush_obligations(ctx, label, sym, fq):
     return n
 
 
+def _is_input_array(sym, name):
+    """a parameter array that the summarised function reads and never writes"""
+    written = any(e.kind == "w" and e.arr.name == name for e in sym.events)
+    read = [e.arr for e in sym.events if e.kind == "r" and e.arr.name == name]
+    return bool(read) and not written and all(getattr(a, "origin", "param") == "param" and not a.private for a in read)
+
+
 def scalar_obligations(ctx, label, sym, fq):
     """(ii) every scalar written inside a region is private or a declared reduction."""
     seen = set()
@@ -495,7 +502,9 @@ def independence(ctx, label, sym, hyps, hy_tab, fq):
                     r, env, be = intarith.check_sat_int(cs, full_budget)
             if r == "unsat":
                 ctx._rec("obligation", name, vc.Verdict("discharged", be), fq)
-            elif r == "sat" and any(u.op == "f" and u.args[0] not in ("idiv", "imod") for c in cs for u in tm.subterms(tm.lift(c)).values()):
+            elif r == "sat" and any(u.op == "f" and u.args[0] not in ("idiv", "imod") and not (str(u.args[0]).startswith("rd:") and _is_input_array(sym, str(u.args[0])[3:]))
+                                    for c in cs for u in tm.subterms(tm.lift(c)).values()):
+                # (reads of an array the function never writes are INPUT DATA: any content is admissible, a model that chooses it is a genuine input)
                 # the counter-model interprets a real-valued function (trunc, sqrt, an array read ...) freely: not a refutation
                 ctx.undecided(name, "solver model relies on a free interpretation of %s" % sorted(set(u.args[0] for c in cs for u in tm.subterms(tm.lift(c)).values() if u.op == "f" and u.args[0] not in ("idiv", "imod")))[:3], fq)
             elif r == "sat":
